@@ -220,6 +220,7 @@ def run(ctx):
     ctx.ob("C14.R7", A + ":Archive.save", "every member object is saved", ok, construct="all-members")
     _recursive_types(ctx)
 
+    _chunking(ctx)
 
 def _recursive_types(ctx):
     """R8: debug types may be recursive (a struct reaching itself through a pointer): the deserializer must publish a
@@ -286,3 +287,28 @@ def _anc14(n):
         out.append(n)
         n = getattr(n, "_parent", None)
     return out
+
+
+def _chunking(ctx):
+    """R9: section data is written as hex lines of chunks(data) and read back by concatenating the lines: the chunks
+    must partition the data - consecutive, in order, nothing twice."""
+    from .. import minieval
+    CH = "ppci/utils/chunk.py"
+    ctx.rule("C14.R9", "chunks(data, size) partitions the data: concatenating the chunks gives the data again, every chunk but the last has `size` elements and no chunk is empty (decided by evaluating the generator for every length 0..3*size+1, size 1..5)", floor=2)
+    fn = ctx.fn(CH, "chunks")
+    bad, n = [], 0
+    try:
+        for size in range(1, 6):
+            for length in range(0, 3 * size + 2):
+                data = tuple(range(length))
+                got = minieval.call(fn, [data, size])
+                n += 1
+                flat = tuple(x for c in got for x in c)
+                ok = flat == data and all(len(c) == size for c in got[:-1]) and all(len(c) > 0 for c in got)
+                if not ok:
+                    bad.append("chunks(%d items, %d) -> sizes %s" % (length, size, [len(c) for c in got]))
+        ctx.ob("C14.R9", CH + ":chunks", "for all %d (length, size) pairs the chunks concatenate to the data, full-size except the last, none empty" % n, not bad, construct="chunks-partition", detail="; ".join(bad[:3]))
+    except minieval.Undecidable as e:
+        ctx.undecided("C14.R9", CH + ":chunks", "chunks could not be evaluated: %s" % e)
+    b2a = ctx.fn("ppci/utils/binary_txt.py", "bin2asc")
+    ctx.ob("C14.R9", "ppci/utils/binary_txt.py:bin2asc", "(context) long data is written chunk by chunk", "chunks(" in norm(b2a), construct="bin2asc-uses-chunks")
